@@ -571,6 +571,13 @@ func init() {
 			n := concInt(a[1])
 			k := p.decide(n, "choice:"+name)
 			p.concIn[name] = uint64(k)
+			// mirror the choice in a solver variable so that known-finding predicates can refer to it
+			v := p.e.ts.Var(name, BVSort(64))
+			if !p.inputSet[name] {
+				p.inputSet[name] = true
+				p.inputs = append(p.inputs, v)
+			}
+			p.addPC(p.e.ts.Eq(v, p.e.ts.BV(64, uint64(k))))
 			return p.e.ts.BV(64, uint64(k))
 		},
 		"vfString": func(p *Path, fr *frame, a []Value) Value { return &Str{b: p.symBytes(concStr(a[0]), concInt(a[1]))} },
